@@ -71,6 +71,8 @@ def _spherical(ctx, pydrex, case):
     rng = np.random.default_rng([int(case["seed"]), 5])
     pts = hostile_points(rng) * case["scale"]
     x, y, z = pts.T
+    if case["seed"] % 2:
+        x, y, z = ctx.buf("x", x), ctx.buf("y", y), ctx.buf("z", z)
     ctx.case(case)
     try:
         with np.errstate(all="ignore"):
@@ -109,7 +111,9 @@ def _poles(ctx, pydrex, case):
         hkl = np.array([1, 0, 0])
     ref = case["ref"]
     ctx.case(case, nontrivial=case["n"] > 1)
-    xv, yv, zv = G.poles(A.copy(), ref_axes=ref, hkl=list(int(v) for v in hkl))
+    Ain = ctx.buf("A", A) if case["seed"] % 2 else A.copy()
+    xv, yv, zv = G.poles(Ain, ref_axes=ref, hkl=list(int(v) for v in hkl))
+    ctx.check("poles_input_not_mutated", bool(np.array_equal(Ain, A)), case)
     d = np.einsum("nji,j->ni", A, hkl.astype(float))
     d /= np.linalg.norm(d, axis=1)[:, None]
     m = {"x": 0, "y": 1, "z": 2}
